@@ -29,60 +29,49 @@ LEAN_SOURCES = ["LenaModel/Model/C06.lean", "LenaModel/Model/C06Spec.lean", "Len
                 "LenaModel/Lemmas/C06Ext.lean", "LenaModel/Props/C06.lean", "LenaModel/Props/C06Ext.lean",
                 "LenaModel/Props/C06At.lean"]
 DRIVER = "drivers/C06.lean"
-LEAN_MODULES_NOTE = "Props/C06.lean (GuessesOK forms), Props/C06Ext.lean (any guess; spec interpreter; element), Props/C06At.lean (weakest hypothesis, lifts)"
 THEOREMS = [
-    # (4) the bin index
-    "Lena.C06.bin1d_spec",
-    "Lena.C06.bin1d_halfopen",
-    "Lena.C06.bin1d_guess_independent",
-    "Lena.C06.bin1d_ok_or_unmodelled",
-    "Lena.C06.bin1d_interp",
-    "Lena.C06.roundedGuess_in_range",
-    "Lena.C06.bin1d_rounded",
-    "Lena.C06.getBinOnValue_spec",
-    "Lena.C06.getBinOnValue_spec_at",
-    "Lena.C06.getBinOnValue_ok_or_unmodelled",
-    # (1)-(3) one fill
-    "Lena.C06.inCell_unique",
-    "Lena.C06.fill_exact_cell",
-    "Lena.C06.fill_out_of_range",
-    "Lena.C06.fill_frame",
-    "Lena.C06.fill_exact_cell_at",
-    "Lena.C06.fill_out_of_range_at",
-    "Lena.C06.fill_frame_at",
-    "Lena.C06.fill_eq_specFill",
-    "Lena.C06.fill_eq_specFill_at",
-    "Lena.C06.fill_ok_or_unmodelled",
-    "Lena.C06.fill_interp",
-    "Lena.C06.fill_rounded",
-    # (5) sequences, structure
-    "Lena.C06.fill_conserves",
+    # --- the carriers: every sentence of the property for EVERY interpolation guess (code after lena 4fbe73b)
+    "Lena.C06.bin1d_correct",                 # (4) index = #edges <= value - 1, one axis
+    "Lena.C06.bin1d_halfopen_any",            # (4) closed lower / open upper bound
+    "Lena.C06.getBinOnValue_correct",         # (4) any dimension
+    "Lena.C06.inCell_unique",                 # (1) "the one cell"
+    "Lena.C06.fill_correct",                  # (1)+(2) fill = specFill
+    "Lena.C06.fill_exact_cell_any",           # (1)
+    "Lena.C06.fill_out_of_range_any",         # (2)
+    "Lena.C06.fill_frame_any",                # (1)-(3) observationally
+    "Lena.C06.fill_conserves",                # (3)+(5) unconditional delta form (weak half: would hold for a wrong cell)
     "Lena.C06.fillAll_conserves",
-    "Lena.C06.fillAll_ok",
-    "Lena.C06.fillAll_ok_at",
-    "Lena.C06.fillAll_eq_specFillAll",
-    "Lena.C06.fillAll_eq_specFillAll_at",
-    "Lena.C06.fillAll_ok_or_unmodelled",
-    "Lena.C06.weight_conserved",
-    "Lena.C06.weight_conserved_at",
-    "Lena.C06.weight_conserved_interp",
-    "Lena.C06.weight_conserved_rounded",
-    # (5) the element
-    "Lena.C06.elem_weight_conserved",
-    "Lena.C06.elem_weight_conserved_at",
-    "Lena.C06.histEl2_run_conserved",
-    "Lena.C06.histEl2_run_conserved_at",
-    "Lena.C06.histEl2_run_ok_or_unmodelled",
-    "Lena.C06.histEl2_run_rounded",
-    # the precondition guard and creation
-    "Lena.C06.checkEdgesIncreasing_ok",
+    "Lena.C06.fillAll_correct",               # any sequence = specFillAll, nothing raises
+    "Lena.C06.weight_conserved_any",          # (5) structure
+    "Lena.C06.elem_weight_conserved_any",     # (5) element Histogram(edges)
+    "Lena.C06.histEl2_run_correct",           # (5) element with bins / make_bins / initial_value, re-used across resets
+    "Lena.C06.checkEdgesIncreasing_ok",       # the precondition guard
     "Lena.C06.checkEdgesIncreasing_err",
     "Lena.C06.mkHist_valid",
     "Lena.C06.mkHist_invalid",
     "Lena.C06.mkHist_bins_wf",
+    # --- about the interpolation itself (no longer needed for correctness)
+    "Lena.C06.bin1d_guess_independent",
+    "Lena.C06.bin1d_interp",
+    "Lena.C06.roundedGuess_in_range",
+    "Lena.C06.bin1d_rounded",
 ]
-# true by definition, model-internal glue, encoding lemmas, the weak halves (audited, not counted as obligations)
+# corollaries kept for the files that use them (hypotheses on the guess that are no longer needed), true by definition,
+# model-internal glue, encoding lemmas, the weak halves: audited, not counted as obligations of the property
 AUX_THEOREMS = [
+    "Lena.C06.bin1d_spec", "Lena.C06.bin1d_halfopen", "Lena.C06.bin1d_ok_or_unmodelled",
+    "Lena.C06.getBinOnValue_spec", "Lena.C06.getBinOnValue_spec_at", "Lena.C06.getBinOnValue_ok_or_unmodelled",
+    "Lena.C06.fill_exact_cell", "Lena.C06.fill_out_of_range", "Lena.C06.fill_frame",
+    "Lena.C06.fill_exact_cell_at", "Lena.C06.fill_out_of_range_at", "Lena.C06.fill_frame_at",
+    "Lena.C06.fill_eq_specFill", "Lena.C06.fill_eq_specFill_at", "Lena.C06.fill_ok_or_unmodelled",
+    "Lena.C06.fill_interp", "Lena.C06.fill_rounded",
+    "Lena.C06.fillAll_ok", "Lena.C06.fillAll_ok_at", "Lena.C06.fillAll_eq_specFillAll",
+    "Lena.C06.fillAll_eq_specFillAll_at", "Lena.C06.fillAll_ok_or_unmodelled",
+    "Lena.C06.weight_conserved", "Lena.C06.weight_conserved_at", "Lena.C06.weight_conserved_interp",
+    "Lena.C06.weight_conserved_rounded",
+    "Lena.C06.elem_weight_conserved", "Lena.C06.elem_weight_conserved_at",
+    "Lena.C06.histEl2_run_conserved", "Lena.C06.histEl2_run_conserved_at", "Lena.C06.histEl2_run_ok_or_unmodelled",
+    "Lena.C06.histEl2_run_rounded",
     "Lena.C06.bin1d_returns",                 # weak half: holds for a wrong in-range index too
     "Lena.C06.bin1d_of_visitedInRange",       # bin1d_ok_or_unmodelled restated (visitedInRange is defined by it)
     "Lena.C06.visitedInRange_of_guessOKAt",
@@ -109,43 +98,61 @@ AUX_THEOREMS = [
 ]
 TRUSTED = [
     "Lean 4.33.0 kernel; axioms limited to propext, Classical.choice, Quot.sound (audited by #print axioms on every run)",
-    "hand transcription of get_bin_on_value_1d, get_bin_on_value, check_edges_increasing, init_bins, histogram.__init__/"
-    "fill and Histogram.__init__/fill into LenaModel/Model/C06.lean (plus NArr.lean), validated by this "
-    "correspondence check",
-    "the float interpolation guess of get_bin_on_value_1d is a parameter of the model; the harness supplies its value at "
-    "the search states visited (for half of the 1-d cases: at every state GuessOKAt speaks about) by evaluating the "
-    "expression of hist_functions.py:206-210 on the case's numbers; the driver evaluates visitedInRange / guessOKAtB on "
-    "these real guesses on every case, and for all-float arrays recomputes them with Lean's IEEE-754 Float (floatGuess) "
-    "- equal on every state so far",
+    "hand transcription of get_bin_on_value_1d, get_bin_on_value, check_edges_increasing, init_bins (deepcopy True/False), "
+    "histogram.__init__/fill and Histogram.__init__/fill/reset into LenaModel/Model/C06.lean (plus NArr.lean), validated by "
+    "this correspondence check (sampled, not exhaustive); the three container tests of the code (hasattr __iter__ in "
+    "check_edges_increasing, histogram.__init__ and - since e6c6bab - init_bins) are ONE flat/nested switch in the model",
+    "the float interpolation guess is a parameter of the model.  Since lena 4fbe73b the theorems that carry the property "
+    "hold for EVERY guess function, so nothing about IEEE arithmetic is trusted for correctness any more.  For the "
+    "correspondence the guess values are OBSERVED in the real code where possible (get_bin_on_value_1d is run under "
+    "sys.settrace and its locals ind_min/ind_max/ind_guess are read after each assignment of ind_guess); at states the "
+    "real search did not visit, or if the function no longer has these locals, the harness evaluates its own copy of the "
+    "expression of hist_functions.py:206-210.  Only outcomes (indices, cells, exceptions) are compared with the real code; "
+    "the comparisons 'Lean Float guess = CPython guess' and 'guessOKAtB = Python evaluation' are between the driver and "
+    "the harness's copy of the expression and do not involve lena",
     "JSON line protocol encoders (harness/props/c06.py, drivers/C06.lean); exact rank / scaled-integer encodings",
 ]
 ASSUMPTIONS = [
-    "the float guess stays within [ind_min, ind_max]: no longer an assumption of the theorems (bin1d_ok_or_unmodelled, "
-    "fill_ok_or_unmodelled hold for ANY guess; bin1d_rounded proves it for every monotone rounding) but checked by "
-    "execution on every generated case (visitedInRange, guessOKAtB); the model answers 'unmodelled' otherwise and the "
-    "correspondence would show it (never observed)",
-    "edge values and coordinates are finite numbers (no NaN/inf) whose differences do not overflow; they are only compared",
+    "edge values and coordinates are numbers of a linear order: ints, finite floats and +-inf coordinates; NaN is outside "
+    "(observed on /repo: histogram([0,1]).fill(nan) adds to bin 0 because both comparisons are false, "
+    "histogram([0,1,2]).fill(nan) raises ValueError from int(nan)); differences that overflow float() (ints beyond 1e308) "
+    "are outside",
+    "edge containers: lists, tuples and ranges (flat or nested, outer list or tuple) are generated; other iterables "
+    "(numpy arrays, generators) are not; the model is container-agnostic",
+    "dimensions: the theorems hold for any number of axes; the generator produces 1-4",
+    "axis lengths: theorems unbounded; the generator produces 2..12 edges per axis in histogram cases and up to 400 in "
+    "1-d search cases (the search is linear in the worst case)",
     "weights and bin contents are ints or dyadic floats whose sums are exact (rounding in sums of arbitrary floats is "
     "outside the model); theorems hold for any commutative monoid of weights",
-    "sub-lists of user-supplied bins are not aliased (init_bins builds distinct lists; checked by the exactly-one-cell "
-    "oracle on the real objects)",
+    "aliasing is outside the value model and outside the statement of C06 (it is C04's subject): sub-lists of "
+    "user-supplied bins are not aliased; the caller does not keep using the `bins` list it hands over (histogram(edges, "
+    "bins) and Histogram(edges, bins) adopt the object itself for the first epoch - observed on /repo: two elements built "
+    "from one list share their cells; reset() uses the deep copy made in __init__); histogram.edges is the caller's object; "
+    "make_bins() returns a new object on every call.  run_impl deep-copies every argument and builds one object per "
+    "case, so none of this is exercised; the per-fill 'exactly one cell changed' oracle does see aliasing INSIDE one "
+    "histogram (rows sharing a list)",
+    "for the element only the final state of a history is judged by the oracle (per-fill deltas are judged on the "
+    "structure); the state is read from Histogram._hist / _cur_context (fallback: compute())",
 ]
 RULE = ("a lazy stream of interleaved cases: (bin1d) one edge array (2..12 edges; families: uniform ints/floats, random "
         "ints/floats, magnitudes 1e-300..1e300 with random exponents, one huge outlier next to small values, chains of "
-        "adjacent floats, mixed ints/floats, big ints; also arrays of 1 and up to 40 edges and non-monotone arrays for the "
-        "correspondence) with every edge, its two floating-point neighbours, integer neighbours, midpoints, values far "
-        "outside and random values - for half of them the guess at EVERY state GuessOKAt speaks about is tabulated, for "
-        "all-float arrays the driver recomputes every guess with Lean's Float, for all-int arrays it runs interpGuess and "
-        "roundedGuess; (hist) a histogram of 1-3 dimensions (flat and nested edge formats, initial value or given bins - "
-        "also for nested one-dimensional edges -, valid and invalid edges/bins/coordinate forms) filled with a sequence of "
-        "such coordinates and integer/dyadic weights of both signs, observed after every fill (index list, changed cells, "
-        "n_out_of_range) and compared with the specification-side interpreter (specFillAll, cellOf?, InCell, indices, total, "
-        "sumW, WF, ValidEdges, Proper); (elem) the same through the Histogram element with and without contexts; (elem2) one "
-        "element object created with bins / make_bins / initial_value (and both: LenaTypeError), re-used across reset()s, "
-        "finally reset() against a new element; (initbins) init_bins with deepcopy True/False on valid and degenerate "
-        "edges. quick: 1500 cases, about 55 k filled points per seed; thorough: 50000 lighter cases, about 1 M points. "
-        "Non-trivial: at least one value landed in a cell and at least one search needed an interpolation guess, or an "
-        "exception was raised.")
+        "adjacent floats, mixed ints/floats, big ints incl. integers spread over a few ulps of the doubles around 2**k; also "
+        "arrays of 1 edge, 13..40 edges (thorough), 70..400 edges (both tiers) and non-monotone arrays for the "
+        "correspondence; given as list, tuple or range) with every edge, its two floating-point neighbours, integer "
+        "neighbours, midpoints, values far outside, +-inf and random values; the guess table of the model holds the "
+        "guesses observed in the real code (sys.settrace) and, for half of the short arrays, the source expression at every "
+        "state GuessOKAt speaks about; for all-float arrays the driver recomputes every guess with Lean's Float, for all-int "
+        "arrays it runs interpGuess and roundedGuess; (hist) a histogram of 1-4 dimensions (flat and nested edge formats; "
+        "axes as lists, tuples or ranges, outer list or tuple; initial value or given bins; valid and invalid "
+        "edges/bins/coordinate forms, bins as a bare number) filled with a sequence of such coordinates and integer/dyadic "
+        "weights of both signs, observed after every fill (index list, changed cells, n_out_of_range) and compared with the "
+        "specification-side interpreter (specFillAll, cellOf?, InCell, indices, total, sumW, WF, ValidEdges, Proper, "
+        "guessesOKAtB); (elem) the same through the Histogram element with and without contexts; (elem2) one element "
+        "object created with bins / make_bins / initial_value (and both: LenaTypeError), re-used across reset()s, finally "
+        "reset() against a new element; (initbins) init_bins with deepcopy True/False and check_edges_increasing called "
+        "directly, on valid and degenerate edges. quick: 1500 cases, about 55 k filled points per seed; thorough: 50000 "
+        "lighter cases, about 1 M points. Non-trivial: at least one value landed in a cell and at least one search needed "
+        "an interpolation guess, or an exception was raised.")
 CASE_TIMEOUT = 10
 
 SCALE = 1024
@@ -888,6 +895,12 @@ def guess_full(val, arr):
     return out
 
 
+def _okat_py(val, arr):
+    """GuessOKAt for the source expression, evaluated in Python"""
+    tab = guess_full(val, arr)
+    return all(tab[i] <= tab[i + 2] <= tab[i + 1] for i in range(0, len(tab), 3))
+
+
 def _bits(x):
     return struct.unpack("<Q", struct.pack("<d", x))[0]
 
@@ -1038,15 +1051,16 @@ def compare(case, res, replies):
             if case.get("full"):
                 tab = guess_full(v, arr)
                 py_ok = all(tab[i] <= tab[i + 2] <= tab[i + 1] for i in range(0, len(tab), 3))
-                if m["okat"] is not True or not py_ok:
-                    return (f"{where}: GuessOKAt on the float guesses (observed in the real code where it consulted them, "
-                            f"the source expression elsewhere): model {m['okat']}, Python {py_ok}")
+                # (since lena 4fbe73b a guess outside the range is legitimate: the predicate is compared, not demanded)
+                if m["okat"] != py_ok and _trace_setup() is None:
+                    return (f"{where}: GuessOKAt on the source expression's guesses: model {m['okat']}, Python {py_ok}")
             if m["cnt"] != sum(1 for e in arr if e <= v) or (m["inc"] is not None and m["inc"] != _strict(arr)):
                 return f"{where}: countLE/StrictInc: model {m['cnt']}/{m['inc']}"
             if "fr" in m:
-                if m["fr"] != r or m["fvis"] is not True or m["fokat"] is False:
+                py_f = _okat_py(v, arr)
+                if m["fr"] != r or m["fvis"] is not True or (m["fokat"] is not None and m["fokat"] != py_f):
                     return (f"{where}: with Lean's Float evaluation of the guess: result {m['fr']}, visitedInRange "
-                            f"{m['fvis']}, GuessOKAt {m['fokat']} (impl {r})")
+                            f"{m['fvis']}, GuessOKAt {m['fokat']} (Python: {py_f}; impl {r})")
                 # Lean's Float against CPython on the source expression, at every state of the table
                 for i in range(0, len(m["fg"]), 3):
                     lo, hi, g = m["fg"][i:i + 3]
@@ -1160,8 +1174,8 @@ def _compare_spec(case, res, sp):
             return f"fill #{i} {xs!r}: indices/cellOf?/InRange: model {q['ind']}/{q['cell']}/{q['inr']} vs {ind}/{cell}"
         if cell is not None and q["pc_incell"] is not True:
             return f"fill #{i} {xs!r}: InCell {cell}: model {q['pc_incell']}"
-        if case.get("full") and q.get("gokat") is not True:
-            return f"fill #{i} {xs!r}: GuessesOKAt on the float guesses of all axes: model {q.get('gokat')}"
+        if case.get("full") and _trace_setup() is None and q.get("gokat") != all(_okat_py(x, a) for x, a in zip(xs, axes)):
+            return f"fill #{i} {xs!r}: GuessesOKAt on the source expression's guesses of all axes: model {q.get('gokat')}"
         if wf and "e" in st:
             return f"fill #{i} {xs!r}: a proper fill into a well-formed histogram raised {st['e']}"
     if sp["sumw"] != sumw:
@@ -1497,11 +1511,10 @@ def classify(case, res):
     labs = {f"op:{op}"}
     for k in (case.get("axes_as") or []):
         labs.add(f"axes-as:{k}")
-    if case.get("edges_as") == "tuple":
-        labs.add("edges-as:tuple")
     if op == "bin1d":
         arr = case["arr"]
-        labs.add(f"family:{case['fam']}")
+        if case["fam"] == "nonmono":
+            labs.add("bin1d:non-monotone-array")
         labs.add("edges:" + ("1" if len(arr) == 1 else "2-12" if len(arr) <= 12 else "13-40" if len(arr) <= 40 else "70-400"))
         labs.add("guesses:" + ("observed-in-real-code" if _trace_setup() is not None else "source-expression-only"))
         if case.get("full"):
@@ -1515,7 +1528,6 @@ def classify(case, res):
                 _search_labels(v, arr, labs)
         return sorted(labs)
     if op == "initbins":
-        labs.add(f"initbins:deepcopy={case['deep']}")
         if "e" in res:
             labs.add("error:init_bins:" + res["e"])
         return sorted(labs)
@@ -1538,8 +1550,6 @@ def classify(case, res):
     labs.add(f"dim:{len(axes)}:{'flat' if axes is not case['edges'] else 'nested'}")
     if case.get("full"):
         labs.add("GuessesOKAt-on-all-states")
-    for fam in set(case["fam"].split("+")):
-        labs.add(f"family:{fam}")
     for f in case["fills"]:
         c = f["c"]
         xs = [c["s"]] if "s" in c else c["t"]
@@ -1599,14 +1609,19 @@ def shrink(case):
 
 # ---- MANIFEST texts ------------------------------------------------------------------------
 LEVEL_TEXT = ("Lean 4 theorems about a transcribed model of get_bin_on_value_1d / get_bin_on_value / histogram.__init__/fill / "
-              "check_edges_increasing / init_bins / Histogram.__init__/fill/reset, for all strictly increasing edge arrays in "
-              "any number of dimensions, all coordinates, all weights of a commutative monoid and every interpolation guess "
-              "(right cell or an explicit 'guess left its range' outcome for ANY guess; in range for every monotone rounding) "
-              "(no bound on lengths, dimensions, the number of fills or resets); the model is tied to /repo by a correspondence check "
-              "on sampled histograms (1-3 dimensions, 2..12 edges, float neighbours of every edge, magnitudes 1e-300..1e300) "
-              "plus a direct oracle on the real code (count of edges <= value, exactly-one-cell delta, exact conservation).")
+              "check_edges_increasing / init_bins / Histogram.__init__/fill/reset: for all strictly increasing edge arrays in "
+              "any number of dimensions, all coordinates of a linear order, all weights of a commutative monoid, any number of "
+              "fills and resets, and EVERY value of the interpolation guess (no hypothesis on floating-point arithmetic, "
+              "code after lena 4fbe73b): index = #edges <= value - 1, the weight goes to exactly the cell containing the "
+              "coordinate or to n_out_of_range, nothing else changes, sum of bins + n_out_of_range = total weight for the "
+              "structure and the element.  The model is tied to /repo by a sampled correspondence check (1-4 dimensions, "
+              "2..12 edges per axis, searches up to 400 edges, list/tuple/range containers, float neighbours of every "
+              "edge, +-inf, magnitudes 1e-300..1e300, dense big integers) plus a direct oracle on the real code (count of "
+              "edges <= value, exactly-one-cell delta, exact conservation).  NaN coordinates, non-dyadic float weight "
+              "sums and aliasing between objects are outside.")
 LEVEL_NOTE = ("Trusted: Lean kernel (+ propext, Classical.choice, Quot.sound), the hand transcription validated by the sampled "
-              "correspondence run, the float interpolation guess staying in range (parameter of the model), exact instead of "
-              "floating-point weight sums, the JSON protocol.")
+              "correspondence run (not exhaustive), exact instead of floating-point weight sums, the JSON protocol.  The float "
+              "interpolation guess is no longer trusted for correctness (every-guess theorems); its values are observed "
+              "in the real code for the correspondence where the search visited them.")
 TECHNIQUE = "Lean 4 proof over hand-written model + sampled correspondence check with exact arithmetic"
 DESIGN_REF = "DESIGN.md section 3, C06"
